@@ -54,7 +54,7 @@ Definition add_child (t : ctab) (nm : name) (child : ptr) : option cres :=
                    (firstn (Z.to_nat (num t)) (ents t) ++ (nm, child) :: skipn (S (Z.to_nat (num t))) (ents t)))).
 
 (* position of the first of the first n entries with the child's pointer *)
-Fixpoint find_ptr (l : list centry) (n : nat) (child : ptr) : option nat :=
+Fixpoint find_ptr (l : list centry) (n : nat) (child : ptr) {struct n} : option nat :=
   match n, l with
   | S n', e :: r => if ptr_eqb (snd e) child then Some O
                     else match find_ptr r n' child with Some i => Some (S i) | None => None end
@@ -87,7 +87,7 @@ Definition names_match (nm new : list Z) : bool :=
   cmp_prefix nm new k && forallb (fun c => c =? 32) (firstn (ADF_NAME_LENGTH - k) (skipn k nm)).
 
 (* ADFI_check_4_child_name: index of the first of the first num entries whose name matches *)
-Fixpoint find_name (l : list centry) (n : nat) (new : list Z) : option nat :=
+Fixpoint find_name (l : list centry) (n : nat) (new : list Z) {struct n} : option nat :=
   match n, l with
   | S n', e :: r => if names_match (fst e) new then Some O
                     else match find_name r n' new with Some i => Some (S i) | None => None end
